@@ -63,7 +63,7 @@ def run(tier):
     if tier == "quick":
         control = [c for c in cells if c[0].startswith("C09:%s:" % fam.CONTROL)]
         rest = [c for c in cells if not c[0].startswith("C09:%s:" % fam.CONTROL)]
-        chosen = control + rnd.sample(rest, min(len(rest), 700))
+        chosen = control + rnd.sample(rest, min(len(rest), 1000))
     else:
         chosen = cells
     chosen = list(chosen) + nest
